@@ -453,13 +453,27 @@ func (c *FnCtx) mergeNormal(outs []Out) []Out {
 			}
 		}
 		for k := range names {
-			v0, ok0 := get(base)[k]
-			same := ok0
+			// a heap first touched on some paths only: the other paths still have its initial version (created lazily,
+			// one constant per function, recorded in the pre-state)
+			ver := func(s *State) *Term {
+				if v, ok := get(s)[k]; ok {
+					return v
+				}
+				if c.pre != nil {
+					if v, ok := get(c.pre)[k]; ok {
+						return v
+					}
+				}
+				return nil
+			}
+			v0 := ver(base)
+			if v0 == nil {
+				return false
+			}
+			same := true
 			for _, o := range normal[1:] {
-				v, ok := get(o.st)[k]
-				if !ok || !ok0 {
-					// a heap first touched on one path only: its initial version is created lazily on read; keep it
-					// only if every path has a version
+				v := ver(o.st)
+				if v == nil {
 					return false
 				}
 				if v != v0 && v.String() != v0.String() {
@@ -467,12 +481,13 @@ func (c *FnCtx) mergeNormal(outs []Out) []Out {
 				}
 			}
 			if same {
+				get(m)[k] = v0
 				continue
 			}
 			nt := c.smt.freshConst(prefix+k, v0.Sort)
 			nt.GoT = v0.GoT
 			for i, o := range normal {
-				def(i, nt, get(o.st)[k])
+				def(i, nt, ver(o.st))
 			}
 			get(m)[k] = nt
 		}
